@@ -6,7 +6,8 @@ import ScVerif.C07.EventsLemmas
 consumer receives that very pointer.  The theorems are about the model of Events.lean (writers'
 sends and the pipeline steps of any number of subscribers of a Collection or a Value — backpressure or
 lossy, masked or not, with or without an include filter (whatever it decides: pass, drop, replace by an
-ADD / a REMOVE) — interleaved in ANY order), for every read-mask projection `proj`:
+ADD / a REMOVE; for a lossy subscriber it runs behind the merger) — interleaved in ANY order), for every read-mask
+projection `proj`:
 
 * no step ever writes to an allocated event cell: whatever a consumer received, and whatever the bus
   handed out, keeps its contents for ever, whoever else holds the same pointer and however far a
@@ -106,6 +107,15 @@ example :
       .send ⟨.update, 1, some 11, some 12, false⟩, .forward 0, .forwardIncl 1 .toAdd]
     s.subs.map (·.out) = [[0], [1]] ∧ s.heap 0 = ⟨.update, 1, some 11, some 12, false⟩ ∧
       s.heap 1 = ⟨.add, 1, none, some 12, false⟩ := by decide
+
+/-- include runs BEHIND the merger of a lossy subscriber: two updates of one id are merged in the private copy (11 → 13), the
+filter turns the merged event into a NEW REMOVE for its consumer; the backpressure subscriber's bus cells are untouched -/
+example :
+    let s := run id ES.init [.sub false false, .sub true false,
+      .send ⟨.update, 1, some 11, some 12, false⟩, .forward 0, .mergeIn 1,
+      .send ⟨.update, 1, some 12, some 13, false⟩, .forward 0, .mergeIn 1, .emitIncl 1 .toRemove]
+    s.subs.map (·.out) = [[0, 1], [3]] ∧ s.heap 2 = ⟨.update, 1, some 11, some 13, false⟩ ∧
+      s.heap 3 = ⟨.remove, 1, some 11, none, false⟩ ∧ s.heap 1 = ⟨.update, 1, some 12, some 13, false⟩ := by decide
 
 /-- a Value: `DropExcess` drops the older pending pointer; the lossy consumer then receives the bus's own cell (cell 1),
 the very cell the backpressure consumer received, and nothing was written -/
